@@ -418,9 +418,23 @@ func (e *env) observe(ctx sdk.Context) string {
 
 // ---------------------------------------------------------------- generators
 type gen struct {
-	r   *hx.Rng
-	e   *env
-	ctx sdk.Context
+	r      *hx.Rng
+	e      *env
+	ctx    sdk.Context
+	sidOf  map[int]int // role id -> sid number, from the harness's own book-keeping of accepted creations
+	nextID int
+}
+
+// spell: sometimes name the role by its sid or with a leading zero instead of the plain number
+func (g *gen) spell(o *op) {
+	switch {
+	case g.r.Chance(25):
+		if sid, ok := g.sidOf[o.R]; ok {
+			o.Rid = sidStr(sid)
+		}
+	case g.r.Chance(8):
+		o.Rid = "0" + strconv.Itoa(o.R)
+	}
 }
 
 func (g *gen) perm() uint32 { return uperms[g.r.Intn(len(uperms))] }
@@ -565,6 +579,7 @@ func (g *gen) randomOp() op {
 				}
 			}
 		}
+		g.spell(&o)
 		return o
 	case x < 70:
 		kind := "assign"
@@ -578,11 +593,17 @@ func (g *gen) randomOp() op {
 				o.R = int(a.Roles[r.Intn(len(a.Roles))])
 			}
 		}
+		if o.Via < 0 { // the message carries a number, the proposal an identifier string
+			g.spell(&o)
+		}
 		return o
 	case x < 74:
 		o := op{Kind: "create_role", Sid: 1 + r.Intn(8), Via: g.viaFor(9)}
 		if o.Via < 0 {
 			o.W, o.Bl = g.permSet(3), g.permSet(2)
+			if len(o.W) > 0 && r.Chance(8) { // a repeated entry in the list
+				o.W = append(o.W, o.W[0])
+			}
 		}
 		return o
 	case x < 76:
@@ -671,7 +692,7 @@ func main() {
 	steps := 0
 	runHistory := func(label string, next func(g *gen, i int) (op, bool)) {
 		ctx, _ := base.CacheContext()
-		g := &gen{r: rng, e: e, ctx: ctx}
+		g := &gen{r: rng, e: e, ctx: ctx, sidOf: map[int]int{}, nextID: 1}
 		init := e.observe(ctx)
 		prev := init
 		var ss []string
@@ -682,6 +703,10 @@ func main() {
 				break
 			}
 			e.apply(ctx, &o)
+			if o.Kind == "create_role" && o.OK {
+				g.sidOf[g.nextID] = o.Sid
+				g.nextID++
+			}
 			cur := e.observe(ctx)
 			ob := "None"
 			if cur != prev {
